@@ -2,8 +2,9 @@
     code is an explicit [Panic] outcome of the model). *)
 From stdpp Require Import gmap list.
 From Coq Require Import NArith ZArith.
-From VFS Require Import Path.Str Core.Types Core.Calls Base.MemFS Base.PhysFS Base.Embedded Base.Handles Layer.Run
-  Proofs.HandleProofs Proofs.MemProofs Proofs.MemCalls Proofs.MoreMem Props.C06.
+From VFS Require Import Path.Str Core.Types Core.Prog Core.Calls Base.MemFS Base.PhysFS Base.Embedded Base.Handles Base.Store
+  Layer.Config Layer.Run Proofs.Leaves
+  Proofs.HandleProofs Proofs.MemProofs Proofs.MemCalls Proofs.MoreMem Proofs.NoPanic Proofs.NoPanicRun Props.C06.
 Local Open Scope Z_scope.
 
 Notation mstate := (gmap (list (list N)) memfile).
@@ -49,6 +50,30 @@ Proof. exact emb_no_panic. Qed.
 Theorem C13_join_total : forall base arg, (exists r, jn base arg = Some r) \/ jn base arg = None.
 Proof. intros base arg. destruct (jn base arg); eauto. Qed.
 
+(** above the base filesystems: for EVERY stacking of adapters (altroot, overlay with any number of
+    layers, nested in any way, with the harness wrapper anywhere) every trait call is a program that
+    returns a panic only if a call into a base filesystem or a handle replied with one - whatever
+    the other replies are *)
+Theorem C13_stackings_add_no_panic : forall (f : fsref) (c : fscall),
+  leaves NPb (fun r => np r) (interp f c).
+Proof. exact np_interp. Qed.
+
+(** the base level (MemoryFS, the modelled OS, EmbeddedFS, every kind of handle, the wrapper's
+    bookkeeping) never replies with a panic, on any store in which reader positions are
+    non-negative - which every call preserves *)
+Theorem C13_base_never_panics : forall (b : bcall) (st : store),
+  store_ok st -> NPb b (snd (bhandler b st)) /\ store_ok (fst (bhandler b st)).
+Proof. exact bhandler_np. Qed.
+
+(** end to end: whatever case the model is given - any bases, any configuration of stackings, any
+    list of operations of the path API (primitives, composites, transfers between instances,
+    walks, probes, snapshots), of handle operations (reads and seeks at any offset, zero-length
+    buffers, handles of removed files) and of fault injections - no outcome is a panic, neither at
+    the top level nor inside a walk, probe or snapshot *)
+Theorem C13_no_case_panics : forall (fuel : nat) (c : case),
+  Forall (fun ol => outcome_np (fst ol)) (run_case fuel c).
+Proof. exact run_case_np. Qed.
+
 Example C13_example :
   fst (mem_reader_read [1;2;3]%N 9 4) = Ok [] /\ snd (mem_step (COpenFile []) mem_new) = fail EOther /\
   emb_step (COpenFile []) (emb_new []) = fail ENotFound.
@@ -62,4 +87,7 @@ Print Assumptions C13_reader_pos_seek.
 Print Assumptions C13_phys_calls.
 Print Assumptions C13_embedded_calls.
 Print Assumptions C13_join_total.
+Print Assumptions C13_stackings_add_no_panic.
+Print Assumptions C13_base_never_panics.
+Print Assumptions C13_no_case_panics.
 Print Assumptions C13_example.
